@@ -487,37 +487,68 @@ func (x *Exec) lookup(st *State, fr *Frame, v *ssa.Lookup) {
 	}
 	mt := v.X.Type().Underlying().(*types.Map)
 	key := x.reg(st, fr, v.Index)
-	et := mt.Elem()
-	if len(x.tc.leaves(et)) != 1 || len(x.tc.leaves(mt.Key())) > 3 {
-		// composite values: uninterpreted lookup
-		val := x.freshVal("mapval", et, st)
-		okv := x.E.fresh("mapok", BoolS)
-		if v.CommaOk {
-			st.regs[v] = Val{T: v.Type(), L: append(append([]*Term{}, val.L...), okv)}
-		} else {
-			st.regs[v] = val
+	val, present := x.mapRead(st, base, mt, key)
+	if base.Src != nil && base.Src.K == AGlobal {
+		if f := x.E.literalMapFact(x, base.Src.Key, mt, val, present); f != nil {
+			st.assume(f)
 		}
-		x.E.noteUnmodelled("map with composite element type " + typeKey(mt) + " read as havoc @ " + x.pos(v.Pos()))
-		return
+	}
+	if v.CommaOk {
+		st.regs[v] = Val{T: v.Type(), L: append(append([]*Term{}, val.L...), present)}
+	} else {
+		st.regs[v] = val
+	}
+}
+
+// mapRead: (value, present) of m[key].  Scalar element types use the array
+// model (so updates are precise); composite element types are read through
+// uninterpreted functions of (map, version, key), deterministic between updates.
+func (x *Exec) mapRead(st *State, m Val, mt *types.Map, key Val) (Val, *Term) {
+	et := mt.Elem()
+	kt := x.mapKeyTerm(st, key)
+	if len(x.tc.leaves(et)) != 1 || len(x.tc.leaves(mt.Key())) > 3 {
+		ver := x.mapVersion(st, mt)
+		ls := x.tc.leaves(et)
+		val := Val{T: et, L: make([]*Term, len(ls))}
+		for i, l := range ls {
+			val.L[i] = App(fmt.Sprintf("map.get%d.%s", i, sanitize(typeKey(mt))), l.S, m.L[0], ver, kt)
+		}
+		st.assume(x.typeInv(val, st))
+		present := App("map.has."+sanitize(typeKey(mt)), BoolS, m.L[0], ver, kt)
+		zero := x.zeroVal(et)
+		out := Val{T: et, L: make([]*Term, len(ls))}
+		for i := range ls {
+			out.L[i] = Ite(present, val.L[i], zero.L[i])
+		}
+		return out, present
 	}
 	pk, vk, ps, vs := x.mapArrays(st, mt)
-	kt := x.mapKeyTerm(st, key)
-	present := Select(Select(x.heapArr(st, pk, ps), base.L[0]), kt)
-	val := Select(Select(x.heapArr(st, vk, vs), base.L[0]), kt)
+	present := Select(Select(x.heapArr(st, pk, ps), m.L[0]), kt)
+	val := Select(Select(x.heapArr(st, vk, vs), m.L[0]), kt)
 	zero := x.zeroVal(et).L[0]
-	r := Ite(present, val, zero)
-	if v.CommaOk {
-		st.regs[v] = Val{T: v.Type(), L: []*Term{r, present}}
-	} else {
-		st.regs[v] = Val{T: v.Type(), L: []*Term{r}}
+	return Val{T: et, L: []*Term{Ite(present, val, zero)}}, present
+}
+
+func (x *Exec) mapVersion(st *State, mt *types.Map) *Term {
+	k := "ghost!mapver!" + typeKey(mt)
+	if t, ok := st.ghost[k]; ok {
+		return t
 	}
+	t := Var("mapver0."+sanitize(typeKey(mt)), IntS)
+	st.ghost[k] = t
+	return t
 }
 
 func (x *Exec) mapUpdate(st *State, fr *Frame, u *ssa.MapUpdate) {
 	m := x.reg(st, fr, u.Map)
 	mt := u.Map.Type().Underlying().(*types.Map)
 	if len(x.tc.leaves(mt.Elem())) != 1 || len(x.tc.leaves(mt.Key())) > 3 {
-		x.E.noteUnmodelled("map update with composite element type " + typeKey(mt))
+		// composite elements: the whole map becomes unknown (version bump)
+		k := "ghost!mapver!" + typeKey(mt)
+		st.ghost[k] = x.E.fresh("mapver", IntS)
+		if x.dry {
+			x.dryEff.ghost[k] = true
+		}
 		return
 	}
 	key := x.reg(st, fr, u.Key)
@@ -527,9 +558,8 @@ func (x *Exec) mapUpdate(st *State, fr *Frame, u *ssa.MapUpdate) {
 	pa, va := x.heapArr(st, pk, ps), x.heapArr(st, vk, vs)
 	st.heap[pk] = Store(pa, m.L[0], Store(Select(pa, m.L[0]), kt, TrueT))
 	st.heap[vk] = Store(va, m.L[0], Store(Select(va, m.L[0]), kt, val.L[0]))
-	if x.dry {
-		x.dryEff.heap[pk], x.dryEff.heap[vk] = true, true
-	}
+	x.effHeap(pk, m.L[0])
+	x.effHeap(vk, m.L[0])
 }
 
 func (x *Exec) mapDelete(st *State, fr *Frame, m, key Val) {
@@ -541,9 +571,7 @@ func (x *Exec) mapDelete(st *State, fr *Frame, m, key Val) {
 	kt := x.mapKeyTerm(st, key)
 	pa := x.heapArr(st, pk, ps)
 	st.heap[pk] = Store(pa, m.L[0], Store(Select(pa, m.L[0]), kt, FalseT))
-	if x.dry {
-		x.dryEff.heap[pk] = true
-	}
+	x.effHeap(pk, m.L[0])
 }
 
 func (x *Exec) mapLen(st *State, m Val) *Term {
